@@ -63,6 +63,7 @@ import numpy as np  # noqa: E402
 import pandas as pd  # noqa: E402
 from vivarium import Component  # noqa: E402
 from vivarium.framework.engine import SimulationContext  # noqa: E402
+from vivarium.interface.interactive import InteractiveContext  # noqa: E402
 from vivarium.framework.results.observer import Observer  # noqa: E402
 from vivarium.framework.state_machine import Machine, State, Transition  # noqa: E402
 from vivarium.framework.values import list_combiner, replace_combiner, union_post_processor  # noqa: E402
@@ -447,6 +448,61 @@ class WStep(Component):
 
 COMPONENTS = {0: WPop, 1: WMort, 2: WDisease, 3: WObserver, 4: WMod0, 5: WMod1, 6: WMod2, 7: WStep}
 
+# contexts of OTHER simulations of this process, as [sim, cfg]: each takes one of its own steps in the MIDDLE of every
+# step of a simulation that carries a `WProbe` (a module global on purpose: never part of a pickled context)
+NEIGHBOURS = []
+
+
+class WProbe(Component):
+    """PASSIVE extra component of the process-history streams of C01 / C18 (`vcheck/whole_worker.py`); not part of
+    `cfg["order"]`, never built by `build`. It creates no column, asks for no stream, pipeline or table and writes
+    nothing, so the model's run is the run with or without it. In every one of the four time-step events it consumes
+    (and every third time reseeds) the process-global numpy / `random` generators; at the start of a step it lets the
+    neighbour simulations of the process (`NEIGHBOURS`) take a step, and – when `copy_from` is set – copies the file the
+    engine's own `run(backup_path, backup_freq)` loop wrote after the previous step to `copy_to % boundary`."""
+
+    def __init__(self, noise=0):
+        super().__init__()
+        self.noise = int(noise)
+        self.looks = 0
+        self.steps_started = 0
+        self.copy_from = None
+        self.copy_to = None
+
+    @property
+    def name(self):
+        return "zz_wprobe"
+
+    def setup(self, builder):
+        for ph, name in enumerate(PHASES):
+            builder.event.register_listener(name, self._prepare if ph == 0 else self._look, priority=0 if ph == 0 else 9)
+
+    def _look(self, event):
+        import random
+        self.looks += 1
+        np.random.random(self.noise % 7 + 1)
+        random.random()
+        if self.noise % 3 == 0:
+            np.random.seed(self.noise % 1000 + self.looks)
+            random.seed(self.looks)
+
+    def _prepare(self, event):
+        import os
+        import shutil
+        if self.copy_from and self.steps_started > 0 and os.path.exists(self.copy_from):
+            shutil.copyfile(self.copy_from, self.copy_to % self.steps_started)
+        self.steps_started += 1
+        self._look(event)
+        for nb in list(NEIGHBOURS):
+            osim, ocfg = nb
+            try:
+                if tick(ocfg, osim.current_time) < ocfg["stop"]:
+                    osim.step()
+                    continue
+            except Exception:  # noqa: BLE001 - a neighbour may be refused (duplicate keys, ...): its own business
+                pass
+            NEIGHBOURS.remove(nb)
+
 
 def build(cfg):
     return [COMPONENTS[k](cfg) for k in cfg["order"]]
@@ -562,10 +618,17 @@ def classify(e):
     return "other:" + type(e).__name__
 
 
-def make_context(cfg):
-    SimulationContext._clear_context_cache()
+def make_context(cfg, cls=None, extra=(), clear_cache=True):
+    """the context of `cfg`. Optional (the defaults are the WHOLE check's own use): `cls` = the context class
+    (`InteractiveContext` is created with `setup=False`), `extra` = further component instances appended after the
+    kit's (the passive `WProbe`), `clear_cache=False` keeps the registry of context names of the process as it is"""
+    if clear_cache:
+        SimulationContext._clear_context_cache()
     comps = build(cfg)
-    sim = SimulationContext(None, comps, configuration(cfg), plugins(cfg), logging_verbosity=0)
+    kw = {}
+    if cls is not None and cls is not SimulationContext:
+        kw["setup"] = False
+    sim = (cls or SimulationContext)(None, comps + list(extra), configuration(cfg), plugins(cfg), logging_verbosity=0, **kw)
     sim._wk_components = comps          # the kit's own handle on its probe components (read-only use: logs)
     return sim
 
@@ -622,79 +685,84 @@ def first_hashes(sim, cfg=None):
         return None
 
 
-def run(cfg, mode="step"):
-    """Run the real engine on the kit. mode "step": explicit step() calls, table after every step;
-    mode "run": SimulationContext.run() (the `while clock < stop` loop), final table only; mode "init": the initial
-    population only.
-    Returns {"init": table | None, "steps": [table...], "clocks": [...], "error": None | {"at": k, "class": c, "msg": m},
-             "positions_by_stage": [...], "positions": after the last completed stage, "size": block size, "collisions": n}"""
-    out = {"init": None, "steps": [], "clocks": [], "error": None, "positions": None, "positions_by_stage": [], "size": None,
-           "mode": mode, "collisions": None, "first_hashes": None, "results": [], "pvals": [], "clk": []}
-    sim = make_context(cfg)
+ENGINE_MODES = ["step", "run", "init", "run_backup"]
+INTERACTIVE_MODES = ["interactive_step", "interactive_take", "interactive_run"]
 
-    def record():
-        """after a completed stage: the running results and the last value the mortality pipeline returned"""
-        try:
-            out["results"].append(canon_results(cfg, sim))
-        except Exception as e:  # noqa: BLE001
-            out["results"].append({"_error": f"{type(e).__name__}: {e}"[:200]})
-        if cfg.get("dt"):
-            try:
-                pop = sim.get_population(True)
-                out["clk"].append([tick(cfg, sim._clock.step_size + EPOCH)] +
-                                  [[int(l), tick(cfg, r["next_event_time"]), tick(cfg, r["step_size"] + EPOCH)] for l, r in pop.iterrows()])
-            except Exception as e:  # noqa: BLE001
-                out["clk"].append(["error", f"{type(e).__name__}: {e}"[:200]])
-        try:
-            m = [c for c in getattr(sim, "_wk_components", []) if isinstance(c, WMort)]
-            out["pvals"].append(getattr(m[0], "plog", None) if m else None)
-        except Exception as e:  # noqa: BLE001
-            out["pvals"].append(["error", f"{type(e).__name__}: {e}"[:200]])
 
+def _new_out(mode):
+    return {"init": None, "steps": [], "clocks": [], "error": None, "positions": None, "positions_by_stage": [], "size": None,
+            "mode": mode, "collisions": None, "first_hashes": None, "results": [], "pvals": [], "clk": []}
+
+
+def _record(cfg, sim, out):
+    """after a completed stage: the running results and the last value the mortality pipeline returned"""
     try:
-        sim.setup()
+        out["results"].append(canon_results(cfg, sim))
     except Exception as e:  # noqa: BLE001
-        out["error"] = {"at": "setup", "class": classify(e), "msg": f"{type(e).__name__}: {e}"[:300]}
-        return out
-    out["size"] = len(sim._randomness._key_mapping)
+        out["results"].append({"_error": f"{type(e).__name__}: {e}"[:200]})
+    if cfg.get("dt"):
+        try:
+            pop = sim.get_population(True)
+            out["clk"].append([tick(cfg, sim._clock.step_size + EPOCH)] +
+                              [[int(l), tick(cfg, r["next_event_time"]), tick(cfg, r["step_size"] + EPOCH)] for l, r in pop.iterrows()])
+        except Exception as e:  # noqa: BLE001
+            out["clk"].append(["error", f"{type(e).__name__}: {e}"[:200]])
     try:
-        sim.initialize_simulants()
+        m = [c for c in getattr(sim, "_wk_components", []) if isinstance(c, WMort)]
+        out["pvals"].append(getattr(m[0], "plog", None) if m else None)
     except Exception as e:  # noqa: BLE001
-        out["error"] = {"at": "init", "class": classify(e), "msg": f"{type(e).__name__}: {e}"[:300]}
-        return out
+        out["pvals"].append(["error", f"{type(e).__name__}: {e}"[:200]])
+
+
+def _stage(cfg, sim, out, init=False):
+    """the canonical table, the clock, the index-map positions, results / pipeline log / clocks of the stage just completed"""
     pop = sim.get_population(True)
-    out["init"] = canon_table(cfg, pop)
+    if init:
+        out["init"] = canon_table(cfg, pop)
+    else:
+        out["steps"].append(canon_table(cfg, pop))
     out["clocks"].append(tick(cfg, sim.current_time))
     out["positions_by_stage"].append(positions(sim, list(pop.index)))
-    record()
-    if mode == "init":
-        return out
+    _record(cfg, sim, out)
+
+
+def _err(at, e):
+    return {"at": at, "class": classify(e), "msg": f"{type(e).__name__}: {e}"[:300]}
+
+
+def _drive(cfg, sim, out, mode, done=0, hook=None, backup_path=None):
+    """from a context whose first `done` steps are taken to the configured end (the part of `run` after the initial
+    population); stage numbers / error positions are ABSOLUTE step numbers"""
     n = cfg["nSteps"]
-    if mode == "run":
+    if mode in ("run", "interactive_run", "run_backup"):
         try:
-            sim.run()
+            if mode == "run_backup":
+                SimulationContext.run(sim, backup_path=backup_path, backup_freq=1e-9)
+            elif mode == "interactive_run":
+                sim.run(with_logging=False)
+            else:
+                sim.run()
         except Exception as e:  # noqa: BLE001
-            out["error"] = {"at": "run", "class": classify(e), "msg": f"{type(e).__name__}: {e}"[:300]}
+            out["error"] = _err("run", e)
             return out
-        pop = sim.get_population(True)
-        out["steps"].append(canon_table(cfg, pop))
-        out["clocks"].append(tick(cfg, sim.current_time))
-        out["positions_by_stage"].append(positions(sim, list(pop.index)))
-        record()
+        _stage(cfg, sim, out)
+        if hook:
+            hook("end", sim, out)
     else:
-        for k in range(n):
+        for k in range(done, n):
             if cfg.get("dt") and tick(cfg, sim.current_time) >= cfg["stop"]:
                 break                                   # per-simulant clocks: the number of steps is not known in advance
             try:
-                sim.step()
+                if mode == "interactive_take":
+                    sim.take_steps(1, with_logging=False)
+                else:
+                    sim.step()
             except Exception as e:  # noqa: BLE001
-                out["error"] = {"at": k, "class": classify(e), "msg": f"{type(e).__name__}: {e}"[:300]}
+                out["error"] = _err(k, e)
                 break
-            pop = sim.get_population(True)
-            out["steps"].append(canon_table(cfg, pop))
-            out["clocks"].append(tick(cfg, sim.current_time))
-            out["positions_by_stage"].append(positions(sim, list(pop.index)))
-            record()
+            _stage(cfg, sim, out)
+            if hook:
+                hook(k + 1, sim, out)
     if out["error"] is None:
         out["positions"] = out["positions_by_stage"][-1]
         out["collisions"] = collisions(sim, cfg)
@@ -702,6 +770,82 @@ def run(cfg, mode="step"):
         try:
             sim.finalize()
         except Exception as e:  # noqa: BLE001
-            if len(out["steps"]) > 0 and mode == "step" and n > 0:
-                out["error"] = {"at": "finalize", "class": classify(e), "msg": f"{type(e).__name__}: {e}"[:300]}
+            if len(out["steps"]) > 0 and mode in ("step", "interactive_step", "interactive_take") and n > 0:
+                out["error"] = _err("finalize", e)
     return out
+
+
+def run(cfg, mode="step", hook=None, extra=(), clear_cache=True, backup_path=None):
+    """Run the real engine on the kit. mode "step": explicit step() calls, table after every step;
+    mode "run": SimulationContext.run() (the `while clock < stop` loop), final table only; mode "init": the initial
+    population only.
+    Returns {"init": table | None, "steps": [table...], "clocks": [...], "error": None | {"at": k, "class": c, "msg": m},
+             "positions_by_stage": [...], "positions": after the last completed stage, "size": block size, "collisions": n}
+
+    Optional (process-history streams of C01 / C18, `vcheck/whole_worker.py`; the defaults are the WHOLE check's own use):
+    further modes "interactive_step" / "interactive_take" (an `InteractiveContext` driven by `step()` / `take_steps(1)`,
+    table after every step), "interactive_run" (`InteractiveContext.run()`, final table only), "run_backup" (the engine's
+    `run(backup_path, backup_freq)` loop, final table only); `hook(stage, sim, out)` is called after the context was
+    created ("created"), after setup ("setup"; engine contexts), after the initial population (0), after every recorded
+    step (k + 1) and after a run-like drive ("end"); `extra`, `clear_cache`: see `make_context`."""
+    out = _new_out(mode)
+    interactive = mode in INTERACTIVE_MODES
+    sim = make_context(cfg, InteractiveContext if interactive else None, extra, clear_cache)
+    if hook:
+        hook("created", sim, out)
+    if interactive:
+        # InteractiveContext.setup() = setup + initialize_simulants: the stage that raised is read off the lifecycle
+        try:
+            sim.setup()
+        except Exception as e:  # noqa: BLE001
+            early = sim._lifecycle.current_state in ("initialization", "setup", "post_setup")
+            if not early and out["size"] is None:
+                try:
+                    out["size"] = len(sim._randomness._key_mapping)
+                except Exception:  # noqa: BLE001
+                    pass
+            out["error"] = _err("setup" if early else "init", e)
+            return out
+        out["size"] = len(sim._randomness._key_mapping)
+    else:
+        try:
+            sim.setup()
+        except Exception as e:  # noqa: BLE001
+            out["error"] = _err("setup", e)
+            return out
+        out["size"] = len(sim._randomness._key_mapping)
+        if hook:
+            hook("setup", sim, out)
+        try:
+            sim.initialize_simulants()
+        except Exception as e:  # noqa: BLE001
+            out["error"] = _err("init", e)
+            return out
+    _stage(cfg, sim, out, init=True)
+    if hook:
+        hook(0, sim, out)
+    if mode == "init":
+        return out
+    return _drive(cfg, sim, out, mode, 0, hook, backup_path)
+
+
+def resume(cfg, sim, done, mode="step", hook=None):
+    """continue a RESTORED context (`dill.load` of a backup written after `done` steps) to the configured end. The
+    stage found after the restore is recorded as `init` (it must be the table after step `done`), the later ones as
+    `steps`; error positions are absolute step numbers. mode "step" / "run" (engine or interactive context alike:
+    `step()` loop / the context's own `run`)."""
+    out = _new_out(mode)
+    out["at"] = done
+    out["ctx"] = type(sim).__name__
+    try:
+        out["size"] = len(sim._randomness._key_mapping)
+        _stage(cfg, sim, out, init=True)
+    except Exception as e:  # noqa: BLE001
+        out["error"] = _err("restore", e)
+        return out
+    if hook:
+        hook(done, sim, out)
+    inter = isinstance(sim, InteractiveContext)
+    m = {"step": "interactive_step" if inter else "step", "take": "interactive_take" if inter else "step",
+         "run": "interactive_run" if inter else "run"}[mode]
+    return _drive(cfg, sim, out, m, done, hook)
